@@ -117,7 +117,7 @@ def observe(case):
             t = Trace(trace_files=dict(files), trace_dir=os.path.dirname(next(iter(files.values()))))
             t.parse_traces(use_multiprocessing=p["mp"])
             canon["parsed"] = {r: _frame(t, r) for r in t.get_ranks()}
-            ta = htaio.load(files, mp=p["mp"])
+            ta = htaio.load(files, mp=p["mp"], ctor=case.get("ctor"))
             canon["loaded"] = {r: _frame(ta.t, r) for r in ta.t.get_ranks()}
             canon["min_ts"] = C.num(ta.t.min_ts)
             canon["index_is_id"] = all(list(ta.t.get_trace(r).index) == list(ta.t.get_trace(r)["index"]) for r in ta.t.get_ranks())
